@@ -15,7 +15,7 @@ from harness import core, tlc
 from props import connect_common as cc
 
 INVS = ["Grammar", "OnePerConnection", "OnlyWhileConnected", "RefCountEdges", "AutoRule", "MapperRule", "RefOK"]
-JVM = {"JAVA_TOOL_OPTIONS": "-XX:ParallelGCThreads=2"}
+JVM = None   # harness/tlc.py keeps the JVM thread count low itself
 ALLSK = {"plain", "behavior", "replay"}
 BOTH = {True, False}
 TIES = {"src", "cmd"}
@@ -42,7 +42,7 @@ def plan(tier: str, seed: int):
     nsim = 4000
     gen = dict(deep, SrcIds=set(), GenLen=3, TEnd=4)
     return [("raw connectables, 4 steps", _c(MaxSteps=4, NSubs=2, SrcIds={1, 3}, StaleDisc=True), None, None),
-            ("ref_count/auto_connect, 5 steps", _c(Wrs={"ref_count", "auto"}, Ns={0, 1, 2, 3}, MaxSteps=5, NSubs=3, SrcIds={1, 3}),
+            ("ref_count/auto_connect, 5 steps", _c(Wrs={"ref_count", "auto"}, Ns={0, 1, 2, 3}, MaxSteps=5, NSubs=3, SrcIds={1}),
              None, None),
             ("self-unsubscribing subscribers, 3 steps", _c(Wrs={"none", "ref_count", "auto"}, Ns={1, 2}, SrcIds={4, 1},
                                                           Modes={"all", "once"}), None, None),
@@ -117,7 +117,7 @@ def run(tier: str) -> int:
     ck.note("scenarios", len(groups))
     ck.note("scenarios_with_choice", sum(1 for g in groups if len(g[1]) > 1))
     total = 0
-    for n, fails in core.parallel_map(_job, [(i, s, a, tier != "quick") for i, (s, a) in enumerate(groups)], procs=1 if tier == "quick" else 8, chunk=100):
+    for n, fails in core.parallel_map(_job, [(i, s, a, tier != "quick") for i, (s, a) in enumerate(groups)], procs=cc.pool_procs(tier), chunk=100):
         total += n
         for f in fails:
             ck.fail(f)
